@@ -1660,6 +1660,81 @@ func stmtSQL(s Statement) string {
 	return s.TokenLiteral()
 }
 
+// SQL() of clause nodes: the text AST.SQL() writes for the clause, for callers that lay out a
+// statement themselves (the command-line formatter) and must not lose or re-implement a clause.
+
+func (t *TableReference) SQL() string {
+	if t == nil {
+		return ""
+	}
+	return tableRefSQL(t)
+}
+
+func (j *JoinClause) SQL() string {
+	if j == nil {
+		return ""
+	}
+	return joinSQL(j)
+}
+
+func (c *CommonTableExpr) SQL() string {
+	if c == nil {
+		return ""
+	}
+	return cteSQL(c)
+}
+
+func (o *OnConflict) SQL() string {
+	if o == nil {
+		return ""
+	}
+	return strings.TrimPrefix(onConflictSQL(o), " ")
+}
+
+func (u *UpsertClause) SQL() string {
+	if u == nil {
+		return ""
+	}
+	return strings.TrimPrefix(onDuplicateKeySQL(u), " ")
+}
+
+func (f *FetchClause) SQL() string {
+	if f == nil {
+		return ""
+	}
+	return strings.TrimPrefix(fetchSQL(f), " ")
+}
+
+func (f *ForClause) SQL() string {
+	if f == nil {
+		return ""
+	}
+	return strings.TrimPrefix(forSQL(f), " ")
+}
+
+// SQL returns the window specification as written between the parentheses of OVER (...) or of a
+// named window definition.
+func (w *WindowSpec) SQL() string {
+	if w == nil {
+		return ""
+	}
+	return windowSpecSQL(w)
+}
+
+func (c *ColumnDef) SQL() string {
+	if c == nil {
+		return ""
+	}
+	return columnDefSQL(c)
+}
+
+func (tc *TableConstraint) SQL() string {
+	if tc == nil {
+		return ""
+	}
+	return tableConstraintSQL(tc)
+}
+
 // nameSQL renders a table or object name, which may be schema-qualified (schema.table): every
 // dot-separated part that needs it is double-quoted.
 func nameSQL(name string) string {
